@@ -474,7 +474,23 @@ def _filter_rule(prog, rep, r5, r6, fc, stripped, site):
     r5.check(n_false >= 1, "filter-rejects", "the filter has rejecting paths", str(n_false), "the opportunity filter never rejects", nontrivial=False)
 
 
+def _dispatch(prog, rep):
+    key = "crate::word_separators::WordSeparator::find_words"
+    body, arms = models.variant_arms(prog, key)
+    r = Rule(rep, "C11.R9", key, site=body.span)
+    LINE = ("param", 2, body.arg_names.get(2, "_2"))
+    r.check(arms.get("AsciiSpace") == ("call", ASCII, (LINE,)), "ascii-arm", "AsciiSpace dispatches to find_words_ascii_space(line)",
+            describe(arms.get("AsciiSpace"), body)[:100] if arms.get("AsciiSpace") else "?",
+            "WordSeparator::AsciiSpace.find_words(line) returns %s" % (describe(arms.get("AsciiSpace"), body)[:120] if arms.get("AsciiSpace") else "?"))
+    if has_feature(prog, "unicode-linebreak"):
+        r.check(arms.get("UnicodeBreakProperties") == ("call", UNI, (LINE,)), "unicode-arm",
+                "UnicodeBreakProperties dispatches to find_words_unicode_break_properties(line)", "",
+                "WordSeparator::UnicodeBreakProperties.find_words(line) returns %s" % (
+                    describe(arms.get("UnicodeBreakProperties"), body)[:120] if arms.get("UnicodeBreakProperties") else "?"))
+
+
 def run(prog, rep):
+    guarded(rep, "C11.R9", "crate::word_separators::WordSeparator::find_words", lambda: _dispatch(prog, rep))
     guarded(rep, "C11.R1", ASCII, lambda: _ascii(prog, rep))
     guarded(rep, "C11.R3", WFROM, lambda: _word_from(prog, rep))
     if has_feature(prog, "unicode-linebreak"):
